@@ -32,6 +32,34 @@ type Env struct {
 	lookup func(name string) (EV, bool)
 	inOld  bool
 	fuel   int
+	facts  *[]Term // heap well-formedness facts about refs read while evaluating (assumed by the caller)
+}
+
+// noteRef records that a reference-typed value read from state env.st is allocated in that state.
+func (env *Env) noteRef(t Term, gt types.Type) {
+	if env.facts == nil || env.st == nil || gt == nil || strings.Contains(t, "q_") {
+		return
+	}
+	var f Term
+	switch gt.Underlying().(type) {
+	case *types.Pointer:
+		f = and(app("<", t, env.st.alloc), implies(app("<", t, "0"), app("<", app("embroot", t), env.st.alloc)))
+	case *types.Signature:
+		f = app("<", t, env.st.alloc)
+	case *types.Map, *types.Interface:
+		f = and(app("<=", "0", t), app("<", t, env.st.alloc))
+	case *types.Slice:
+		f = and(app("<=", "0", sarrOf(t)), app("<", sarrOf(t), env.st.alloc), app("<=", "0", soffOf(t)),
+			app("<=", "0", slenOf(t)), app("<=", slenOf(t), scapOf(t)), app("<=", scapOf(t), "281474976710656"),
+			implies(eq(sarrOf(t), "0"), eq(scapOf(t), "0")))
+	default:
+		if lo, hi, ok := intRange(gt); ok {
+			f = and(app("<=", lo, t), app("<=", t, hi))
+		} else {
+			return
+		}
+	}
+	*env.facts = append(*env.facts, f)
 }
 
 func (env *Env) child() *Env {
@@ -261,7 +289,9 @@ func (env *Env) selectField(ref Term, st types.Type, s *types.Struct, idx int) E
 	if fs == SStruct {
 		return EV{app("emb", ref, strconv.Itoa(idx)), SStruct, f.Type()}
 	}
-	return EV{sel(env.heap(key), ref), fs, f.Type()}
+	r := EV{sel(env.heap(key), ref), fs, f.Type()}
+	env.noteRef(r.T, r.GT)
+	return r
 }
 
 // ---------------------------------------------------------------------------------------------
@@ -373,9 +403,9 @@ func (env *Env) eval(e *Expr) EV {
 			if e.Args[2] != nil {
 				hi = env.eval(e.Args[2]).T
 			} else {
-				hi = app("slen_", x.T)
+				hi = slenOf(x.T)
 			}
-			return EV{app("mkslice", app("sarr", x.T), app("+", app("soff", x.T), lo), app("-", hi, lo), app("-", app("scap", x.T), lo)), SSlice, x.GT}
+			return EV{app("mkslice", sarrOf(x.T), plus(soffOf(x.T), lo), minus(hi, lo), minus(scapOf(x.T), lo)), SSlice, x.GT}
 		}
 		efail("cannot slice %s", x.S)
 	case "forall", "exists":
@@ -495,7 +525,9 @@ func (env *Env) evalObject(obj types.Object) EV {
 		return env.constVal(o.Val(), o.Type())
 	case *types.Var:
 		key, s := env.w.globalKey(o)
-		return EV{env.heap(key), s, o.Type()}
+		r := EV{env.heap(key), s, o.Type()}
+		env.noteRef(r.T, r.GT)
+		return r
 	}
 	efail("identifier %q is not a value", obj.Name())
 	return EV{}
@@ -518,7 +550,9 @@ func (env *Env) deref(x EV) EV {
 		return EV{sel(env.heap(key), x.T), arrSort(es), et}
 	}
 	key, s := env.w.boxKey(et)
-	return EV{sel(env.heap(key), x.T), s, et}
+	r := EV{sel(env.heap(key), x.T), s, et}
+	env.noteRef(r.T, r.GT)
+	return r
 }
 
 func (env *Env) index(x EV, i Term) EV {
@@ -536,7 +570,9 @@ func (env *Env) index(x EV, i Term) EV {
 			efail("indexing a slice of unknown element type")
 		}
 		key, es := env.w.elemKey(et)
-		return EV{sel(sel(env.heap(key), app("sarr", x.T)), app("+", app("soff", x.T), i)), es, et}
+		r := EV{sel(sel(env.heap(key), sarrOf(x.T)), sidx(soffOf(x.T), i)), es, et}
+		env.noteRef(r.T, r.GT)
+		return r
 	case SInt:
 		if x.GT != nil {
 			if p, ok := x.GT.Underlying().(*types.Pointer); ok {
@@ -633,10 +669,10 @@ func (env *Env) evalBin(e *Expr) EV {
 	switch op {
 	case "==", "!=":
 		if a.S == SSlice && e.Args[1].Op == "nil" {
-			a = EV{app("sarr", a.T), SInt, nil}
+			a = EV{sarrOf(a.T), SInt, nil}
 		}
 		if b.S == SSlice && e.Args[0].Op == "nil" {
-			b = EV{app("sarr", b.T), SInt, nil}
+			b = EV{sarrOf(b.T), SInt, nil}
 		}
 		if a.S != b.S {
 			efail("comparison of %s with %s", a.S, b.S)
@@ -771,7 +807,7 @@ func (env *Env) evalCall(e *Expr) EV {
 		case SStr:
 			return EV{app("slen", x.T), SInt, intT}
 		case SSlice:
-			return EV{app("slen_", x.T), SInt, intT}
+			return EV{slenOf(x.T), SInt, intT}
 		}
 		if x.GT != nil {
 			if a, ok := x.GT.Underlying().(*types.Array); ok {
@@ -785,18 +821,18 @@ func (env *Env) evalCall(e *Expr) EV {
 		if x.S != SSlice {
 			efail("cap of %s", x.S)
 		}
-		return EV{app("scap", x.T), SInt, intT}
+		return EV{scapOf(x.T), SInt, intT}
 	case "arr":
 		argn(1)
 		x := env.eval(e.Args[0])
 		if x.S != SSlice {
 			efail("arr of %s", x.S)
 		}
-		return EV{app("sarr", x.T), SInt, nil}
+		return EV{sarrOf(x.T), SInt, nil}
 	case "off":
 		argn(1)
 		x := env.eval(e.Args[0])
-		return EV{app("soff", x.T), SInt, intT}
+		return EV{soffOf(x.T), SInt, intT}
 	case "bsTest":
 		argn(2)
 		b := env.eval(e.Args[0])
@@ -817,7 +853,7 @@ func (env *Env) evalCall(e *Expr) EV {
 			efail("fresh() not available here")
 		}
 		if x.S == SSlice {
-			return EV{app("isfresh", app("sarr", x.T), env.alloc0), SBool, boolT}
+			return EV{app("isfresh", sarrOf(x.T), env.alloc0), SBool, boolT}
 		}
 		return EV{app("isfresh", x.T, env.alloc0), SBool, boolT}
 	case "allocated":
@@ -828,7 +864,7 @@ func (env *Env) evalCall(e *Expr) EV {
 		}
 		t := x.T
 		if x.S == SSlice {
-			t = app("sarr", x.T)
+			t = sarrOf(x.T)
 		}
 		return EV{app("<", t, env.st.alloc), SBool, boolT}
 	case "mapHas":
@@ -905,7 +941,7 @@ func (env *Env) evalCall(e *Expr) EV {
 		}
 		et := x.GT.Underlying().(*types.Slice).Elem()
 		key, es := env.w.elemKey(et)
-		return EV{sel(env.heap(key), app("sarr", x.T)), arrSort(es), nil}
+		return EV{sel(env.heap(key), sarrOf(x.T)), arrSort(es), nil}
 	case "strOfBytes":
 		argn(3)
 		a := env.eval(e.Args[0])
@@ -981,7 +1017,7 @@ func (env *Env) evalCall(e *Expr) EV {
 		if v.S != ps {
 			efail("argument %d of %s has sort %s, expected %s", i+1, name, v.S, ps)
 		}
-		if v.GT == nil || isUntyped(v.GT) {
+		if v.GT == nil || isUntyped(v.GT) || (sf.Pred && pt != nil) {
 			v.GT = pt
 		}
 		args = append(args, v)
@@ -992,9 +1028,9 @@ func (env *Env) evalCall(e *Expr) EV {
 		if env.fuel > 40 {
 			efail("predicate expansion too deep at %s", name)
 		}
-		ne := &Env{w: env.w, pkg: env.w.specPkg(sf), vars: map[string]EV{}, st: env.st, alloc0: env.alloc0, fuel: env.fuel + 1}
+		ne := &Env{w: env.w, pkg: env.w.specPkg(sf), vars: map[string]EV{}, st: env.st, alloc0: env.alloc0, fuel: env.fuel + 1, facts: env.facts}
 		if env.old != nil {
-			oe := &Env{w: env.w, pkg: ne.pkg, vars: map[string]EV{}, st: env.old.st, alloc0: env.old.alloc0, fuel: env.fuel + 1}
+			oe := &Env{w: env.w, pkg: ne.pkg, vars: map[string]EV{}, st: env.old.st, alloc0: env.old.alloc0, fuel: env.fuel + 1, facts: env.facts}
 			ne.old = oe
 		}
 		for i, p := range sf.Params {
